@@ -45,7 +45,8 @@ def paths_of(plain, pre=()):
 
 
 def gen_case(rng, tier):
-    base = gen.rand_sequence(rng, rng.choice([1, 1, 2]), rng.choice([2, 3, 4]), kinds=('s',), pool_s=POOL, hostile=False, marker=gen.Marker(), allow_empty=True)
+    base = gen.rand_sequence(rng, rng.choice([1, 1, 2]), rng.choice([2, 3, 4]), kinds=('s',), pool_s=POOL, hostile=False, marker=gen.Marker(), allow_empty=True,
+                             pathlike=0)        # keys spelled like paths cannot be addressed through the command-line grammar
     if rng.random() < 0.5:
         return gen_notnew(rng, base)
     return gen_cmdline(rng, base)
